@@ -64,6 +64,7 @@ class Driver:
         self.contents = []   # reference content (tuple of versions) after each op
         self.flush_ops = []  # indices of ops that end with a completed flush of the file
         self.nextver = {}
+        self.read_problem = None
         if cfg['store'] == 'npy':
             self.file = os.path.join(workdir, 'x.npy')
             self.s = st.NpyStore(os.path.join(workdir, 'x'), cfg['bs'])
@@ -89,7 +90,7 @@ class Driver:
             if n > 1:
                 ops.append(('overwrite', n - 1))
             ops.append(('delete_last',))
-        ops += [('clear',), ('flush',), ('reopen',)]
+        ops += [('clear',), ('flush',), ('reopen',), ('read',)]
         if self.cfg['store'] == 'npy':
             ops.append(('pickle',))
         else:
@@ -133,6 +134,17 @@ class Driver:
             else:
                 self.pool.clear()
             self.ref = []
+        elif k == 'read':
+            # reading is an operation too: it creates the memory map and flushes the buffered layer
+            st_ = self.store()
+            if st_ is not None:
+                if len(st_) != len(self.ref):
+                    self.read_problem = 'len %d != %d' % (len(st_), len(self.ref))
+                for i, v in enumerate(self.ref):
+                    got = np.asarray(st_[i])
+                    exp = batch_value(cfg, i, v)
+                    if not (got.dtype == exp.dtype and got.shape == exp.shape and got.tobytes() == exp.tobytes()):
+                        self.read_problem = 'batch %d read as %r' % (i, got.tolist())
         elif k == 'flush':
             if npy:
                 self.s.flush()
@@ -204,6 +216,9 @@ def judge_history(cfg, hist, workdir, validate):
         raise RuntimeError('interception lost: history produced no raw file operations')
     n_imgs = 0
     n_val = 0
+    if d.read_problem:
+        d.close()
+        return bad('C06:read-differs:during-history', {'history': hist, 'cfg': cfg, 'problem': d.read_problem})
     lo = marks[-2] if len(marks) > 1 else 0
     hi = marks[-1]
     j = len(hist) - 1
@@ -412,7 +427,7 @@ def run(ctx):
         ctx.record(case, run_one(case), 'long-history')
     ctx.add_sample({'history': LONG_HISTORY, 'note': 'every prefix judged, every raw op a crash point'}, key='long')
     ctx.rule = ('histories: every operation sequence up to depth %d (first op is the initialising append) over '
-                '{append, overwrite(first|last), delete-last, clear, flush, close+reopen, pickle round trip | pool: '
+                '{append, overwrite(first|last), delete-last, clear, flush, close+reopen, read-all, pickle round trip | pool: '
                 're-add, save} per store configuration (NpyStore|ArrayPool store x dtype x row shape x batch_size); '
                 'crash images: one per raw file operation (write/truncate/memmap store) of the last operation of every '
                 'history, judged when a flush completed before it; evaluations = histories + crash images; all distinct '
